@@ -45,9 +45,10 @@ NEGATIVE = {
     "leak_writer": "Deadlock reached",
     "leak_reader": "Deadlock reached",
     "unblock_no_sigchld": "Deadlock reached",
+    "stop_is_finish": r"Invariant Inv\w+ is violated",
 }
 
-ACTIONS = ["ASimple", "AProbe", "ARead", "AWrite", "ABigWrite", "AKill", "AUnblock", "AForkSub", "AForkCs", "AForkBg", "AForkStage", "AReadEof",
+ACTIONS = ["ASimple", "AProbe", "ARead", "AWrite", "ABigWrite", "AKill", "APubGet", "AAck", "AUnblock", "AForkSub", "AForkCs", "AForkBg", "AForkStage", "AReadEof",
            "AEnable", "APollFg", "AReapFg", "APollAny", "AReapAny", "AWake", "AWaitChk", "AExit", "ACollect"]
 
 
